@@ -1,3 +1,4 @@
+import DarkluaModel.C07.VisitEqs
 import DarkluaModel.C07.Cover
 /-!
 # The visitor preserves well-formedness
